@@ -11,10 +11,11 @@ package mpb
 //@ typeinv Bar props C02 C09 self.cancel != nil && self.frameCh != nil && self.operateState != nil && self.bsOk != nil && self.container != nil && self.ctx != nil && !isext(self.bsOk)
 
 //@ func newBar
-//@   props    C02 C09 C06 C17
+//@   props    C02 C09 C06 C17 C15
 //@   requires container != nil && bs != nil
 //@   ensures  result != nil && fresh(result)
 //@   ensures  result.priority == bs.priority && result.container == container
+//@   ensures  buffered@C15,C02: cap(result.frameCh) == 1 // flush returns at the first failed frame: every other bar must still be able to deposit its frame and see the cancellation
 
 // ---------------------------------------------------------------------------------------
 // bar state: completion (C09, C11)
@@ -99,7 +100,7 @@ package mpb
 //@   ensures  R6: s.refill <= s.current
 
 //@ func (*Bar).Abort$1
-//@   props    C09 C11 C10
+//@   props    C09 C11 C10 C03
 //@   requires s != nil && b != nil
 //@   modifies s.aborted, s.rmOnComplete, s.triggerComplete, spawned("(*Bar).tryEarlyRefresh"), cancelled(b)
 //@   ensures  noop: old(s.aborted) || old(s.completed())
@@ -291,15 +292,15 @@ package mpb
 // ewma flavours: every moving-average decorator receives the sample once, with its duration
 
 //@ func (*Bar).EwmaIncrInt64$1$1
-//@   props    C19 C09 C10
+//@   props    C19 C09 C10 C20
 //@   requires d != nil
 //@   ensures  called("decor.EwmaDecorator.EwmaUpdate") == old(called("decor.EwmaDecorator.EwmaUpdate")) + 1
 //@   ensures  calledWith("decor.EwmaDecorator.EwmaUpdate", 0) == d && calledWith("decor.EwmaDecorator.EwmaUpdate", 1) == n
 //@            && calledWith("decor.EwmaDecorator.EwmaUpdate", 2) == iterDur
-//@   ensures  done@C10,C19: called("(*sync.WaitGroup).Done") == old(called("(*sync.WaitGroup).Done")) + 1
+//@   ensures  done@C10,C19,C20: called("(*sync.WaitGroup).Done") == old(called("(*sync.WaitGroup).Done")) + 1
 
 //@ func (*Bar).EwmaIncrInt64$1
-//@   props    C19 C09 C11 C10
+//@   props    C19 C09 C11 C10 C20
 //@   wraps
 //@   requires s != nil && b != nil
 //@   requires forall(i, 0, len(s.ewmaDecorators), s.ewmaDecorators[i] != nil)
@@ -313,19 +314,19 @@ package mpb
 //@              ==> s.current == wrap64(old(s.current) + n) && s.triggerComplete == old(s.triggerComplete)
 //@   ensures  S1@C11: old(s.completed()) && n >= 0 ==> s.completed()
 //@   ensures  S2@C11: old(s.aborted) ==> s.aborted && !s.completed()
-//@   ensures  joined@C10,C19: called("(*sync.WaitGroup).Add") == old(called("(*sync.WaitGroup).Add")) + 1 && calledWith("(*sync.WaitGroup).Add", 1) == len(s.ewmaDecorators)
+//@   ensures  joined@C10,C19,C20: called("(*sync.WaitGroup).Add") == old(called("(*sync.WaitGroup).Add")) + 1 && calledWith("(*sync.WaitGroup).Add", 1) == len(s.ewmaDecorators)
 //@              && called("(*sync.WaitGroup).Wait") == old(called("(*sync.WaitGroup).Wait")) + 1
 
 //@ func (*Bar).EwmaSetCurrent$1$1
-//@   props    C19 C09 C10
+//@   props    C19 C09 C10 C20
 //@   requires d != nil
 //@   ensures  called("decor.EwmaDecorator.EwmaUpdate") == old(called("decor.EwmaDecorator.EwmaUpdate")) + 1
 //@   ensures  calledWith("decor.EwmaDecorator.EwmaUpdate", 0) == d && calledWith("decor.EwmaDecorator.EwmaUpdate", 1) == n
 //@            && calledWith("decor.EwmaDecorator.EwmaUpdate", 2) == iterDur
-//@   ensures  done@C10,C19: called("(*sync.WaitGroup).Done") == old(called("(*sync.WaitGroup).Done")) + 1
+//@   ensures  done@C10,C19,C20: called("(*sync.WaitGroup).Done") == old(called("(*sync.WaitGroup).Done")) + 1
 
 //@ func (*Bar).EwmaSetCurrent$1
-//@   props    C19 C09 C11 C10
+//@   props    C19 C09 C11 C10 C20
 //@   wraps
 //@   requires s != nil && b != nil
 //@   requires forall(i, 0, len(s.ewmaDecorators), s.ewmaDecorators[i] != nil)
@@ -339,7 +340,7 @@ package mpb
 //@              ==> s.current == current && s.triggerComplete == old(s.triggerComplete)
 //@   ensures  S1@C11: old(s.completed()) && current >= old(s.current) ==> s.completed()
 //@   ensures  S2@C11: old(s.aborted) ==> s.aborted && !s.completed()
-//@   ensures  joined@C10,C19: called("(*sync.WaitGroup).Add") == old(called("(*sync.WaitGroup).Add")) + 1 && calledWith("(*sync.WaitGroup).Add", 1) == len(s.ewmaDecorators)
+//@   ensures  joined@C10,C19,C20: called("(*sync.WaitGroup).Add") == old(called("(*sync.WaitGroup).Add")) + 1 && calledWith("(*sync.WaitGroup).Add", 1) == len(s.ewmaDecorators)
 //@              && called("(*sync.WaitGroup).Wait") == old(called("(*sync.WaitGroup).Wait")) + 1
 
 // ---------------------------------------------------------------------------------------
@@ -368,7 +369,7 @@ package mpb
 
 //@ functype bFiller.flush
 //@   params   w sections
-//@   requires forall(i, 0, len(sections), sections[i].meta != nil)
+//@   requires w != nil && forall(i, 0, len(sections), sections[i].meta != nil)
 //@   modifies written(w)
 //@   ensures  dw(written(w)) >= old(dw(written(w)))
 //@   ensures  dw(written(w)) - old(dw(written(w))) <= sumdw(sections, len(sections), "bytes")
@@ -762,7 +763,7 @@ package mpb
 //@   ensures  sent(ch) == old(sent(ch)) + 1 && unboxAs(lastSent(ch), "[]*Bar") == bHeap
 
 //@ func (heapManager).run
-//@   props    C05 C06 C02 C12 C14 C03
+//@   props    C05 C06 C02 C12 C14 C03 C17
 //@   requires m != nil
 //@   assumes  emptyheap()
 //@   loop 1   invariant pqwf(bHeap) && len(bHeap) >= 0
@@ -780,7 +781,7 @@ package mpb
 //@                  && (unboxAs(req.data, "fixData").lazy ==> !hord()) && (!unboxAs(req.data, "fixData").lazy && iter(hord()) ==> hord())
 //@   loop 1   ensures unfixed@C06: req.cmd == h_fix && iter(now(unboxAs(req.data, "fixData").bar).index) < 0
 //@              ==> unboxAs(req.data, "fixData").bar.priority == iter(now(unboxAs(req.data, "fixData").bar).priority) && hord() == iter(hord())
-//@   loop 1   ensures syncflag@C12: req.cmd == h_push ==> sync == (iter(sync) || unboxAs(req.data, "pushData").sync)
+//@   loop 1   ensures syncflag@C12,C02,C17: req.cmd == h_push ==> sync == (iter(sync) || unboxAs(req.data, "pushData").sync)
 //@   loop 1   ensures synced@C12: req.cmd == h_sync ==> !sync && len == len(bHeap) && spawned("maxWidthDistributor") >= iter(spawned("maxWidthDistributor"))
 //@   loop 1   ensures syncframe@C12: req.cmd != h_push && req.cmd != h_sync ==> sync == iter(sync) && len == iter(len)
 //@   loop 1   ensures state@C03: req.cmd == h_state ==> sent(unboxAs(req.data, "chan<- bool")) == iter(sent(now(unboxAs(req.data, "chan<- bool")))) + 1 && lastSent(unboxAs(req.data, "chan<- bool")) == (iter(sync) || iter(len) != len(bHeap))
@@ -827,11 +828,11 @@ package mpb
 //@   loop 1   ensures atmost@C05: len(pushes) == iter(len(pushes)) || len(pushes) == iter(len(pushes)) + 1
 //@   loop 1   ensures normal@C05: frame.shutdown != 1 && frame.shutdown != 2
 //@              ==> len(pushes) == iter(len(pushes)) + 1 && pushes[len(pushes) - 1].bar == b && !pushes[len(pushes) - 1].sync
-//@   loop 1   ensures popped@C18,C05,C04: frame.shutdown == 2 && s.popCompleted && !frame.noPop
+//@   loop 1   ensures popped@C18,C05,C04,C03: frame.shutdown == 2 && s.popCompleted && !frame.noPop
 //@              ==> len(pushes) == iter(len(pushes)) && popCount == iter(popCount) + len(rows) - iter(len(rows))
-//@   loop 1   ensures kept@C18,C05: frame.shutdown == 2 && !(s.popCompleted && !frame.noPop)
+//@   loop 1   ensures kept@C18,C05,C03: frame.shutdown == 2 && !(s.popCompleted && !frame.noPop)
 //@              ==> len(pushes) == iter(len(pushes)) + 1 && pushes[len(pushes) - 1].bar == b && !pushes[len(pushes) - 1].sync && popCount == iter(popCount)
-//@   loop 1   ensures successor@C17,C05,C06: frame.shutdown == 1 && iter(has(s.queueBars, now(b)))
+//@   loop 1   ensures successor@C17,C05,C06,C18: frame.shutdown == 1 && iter(has(s.queueBars, now(b)))
 //@              ==> len(pushes) == iter(len(pushes)) + 1 && pushes[len(pushes) - 1].bar == iter(s.queueBars[now(b)]) && pushes[len(pushes) - 1].sync
 //@                  && pushes[len(pushes) - 1].bar.priority == iter(now(b).priority) && b.priority == iter(now(b).priority) && !has(s.queueBars, b)
 //@   loop 1   ensures retired@C17: (frame.shutdown == 1 ==> b.retired) && (frame.shutdown != 1 ==> b.retired == iter(now(b).retired))
@@ -918,8 +919,20 @@ package mpb
 //@   ensures  buffers@C07: result.buffers[0] != nil && result.buffers[1] != nil && result.buffers[2] != nil
 //@              && result.buffers[0] != result.buffers[1] && result.buffers[0] != result.buffers[2] && result.buffers[1] != result.buffers[2]
 
+// queueing option (C17): whatever the state of the predecessor at the time of the call, the
+// option records it; Add decides from `retired` whether to park the new bar or push it
+//@ func BarQueueAfter
+//@   props    C17 C02
+//@   modifies nothing
+//@   ensures  option@C17: result != nil && fnof(result) == fn("BarQueueAfter$1") && bound(result, "bar") == in(bar)
+//@ func BarQueueAfter$1
+//@   props    C17 C02
+//@   requires s != nil
+//@   modifies s.waitBar
+//@   ensures  set@C17: s.waitBar == bar
+
 //@ func (*Progress).Add$1
-//@   props    C05 C17 C06 C02
+//@   props    C05 C17 C06 C02 C18
 //@   requires ps != nil && p != nil && filler != nil && ch != nil && !closed(ch) && !closed(ps.hm) && ps.idCount < 1<<62
 //@   requires parked: forall(k, has(ps.queueBars, k) ==> ps.queueBars[k] != nil)
 //@   loop 1   invariant key != nil && bar != nil && fresh(bar) && bs != nil && fresh(bs) && bs.waitBar != nil && !bs.waitBar.retired
@@ -932,8 +945,9 @@ package mpb
 //@   ensures  accounted@C05,C17: called("(heapManager).push") == old(called("(heapManager).push")) + 1 && calledWith("(heapManager).push", 1) == lastSent(ch) && calledWith("(heapManager).push", 2) == true
 //@              || called("(heapManager).push") == old(called("(heapManager).push")) && exists(k, has(ps.queueBars, k) && ps.queueBars[k] == lastSent(ch) && !old(has(ps.queueBars, k)))
 //@   ensures  live@C17: called("(heapManager).push") == old(called("(heapManager).push")) ==> bs.waitBar != nil && !bs.waitBar.retired
-//@   ensures  inherit@C06,C17: called("(heapManager).push") == old(called("(heapManager).push")) + 1 && bs.waitBar != nil ==> lastSent(ch).priority == bs.waitBar.priority
+//@   ensures  inherit@C06,C17: called("(heapManager).push") == old(called("(heapManager).push")) + 1 && bs.waitBar != nil && bs.waitBar.priority >= ps.popPriority ==> lastSent(ch).priority == bs.waitBar.priority
 //@   ensures  own@C06: bs.waitBar == nil ==> lastSent(ch).priority == bs.priority
+//@   ensures  abovepop@C18,C17: called("(heapManager).push") == old(called("(heapManager).push")) + 1 && bs.priority >= ps.popPriority ==> lastSent(ch).priority >= ps.popPriority // a bar that starts running never sits among the popped ones (their priorities are below popPriority)
 //@   ensures  nooverwrite@C17: forall(k, old(has(ps.queueBars, k)) ==> has(ps.queueBars, k) && ps.queueBars[k] == old(ps.queueBars[k]))
 //@   ensures  parkedstill: forall(k, has(ps.queueBars, k) ==> ps.queueBars[k] != nil)
 
@@ -1041,7 +1055,8 @@ package mpb
 
 // bsOk is only ever closed, by the bar's own goroutine, after the final state has been
 // published in b.bs ((*Bar).serve, clause published): a completed receive on it means b.bs is set.
-//@ chan Bar.bsOk assume self.bs != nil
+//@ chan Bar.bsOk invariant false // nothing is ever sent: a receive completes only once the channel is closed
+//@ chan Bar.bsOk onclose self.bs != nil
 
 //@ func (*Bar).serve
 //@   props    C14 C11 C10 C02 C03
@@ -1072,7 +1087,7 @@ package mpb
 //@ chan render.iter assume v != nil
 
 //@ func (*pState).render
-//@   props    C03 C04 C05 C13 C15 C02
+//@   props    C03 C04 C05 C13 C15 C02 C18
 //@   requires s != nil && cw != nil && !closed(s.hm) && !closed(s.iterDrop)
 //@   requires wkey(cw.out) != cw.Buffer
 //@   assumes  s.reqWidth <= 1<<31
@@ -1083,7 +1098,7 @@ package mpb
 //@   ensures  parkedstill: forall(k, has(s.queueBars, k) ==> s.queueBars[k] != nil)
 //@   ensures  requests@C05: called("(heapManager).sync") == old(called("(heapManager).sync")) + 1 && called("(heapManager).iter") == old(called("(heapManager).iter")) + 1
 //@              && calledWith("(heapManager).sync", 1) == s.iterDrop && calledWith("(heapManager).iter", 1) == s.iterDrop
-//@   ensures  size@C04: !cw.terminal && called("(*pState).flush") == old(called("(*pState).flush")) + 1
+//@   ensures  size@C04,C18: !cw.terminal && called("(*pState).flush") == old(called("(*pState).flush")) + 1
 //@              ==> calledWith("(*pState).flush", 2) == ite(s.reqWidth > 0, s.reqWidth, 80)
 //@   ensures  fits@C04: cw.terminal && called("(*pState).flush") == old(called("(*pState).flush")) + 1
 //@              ==> calledWith("(*pState).flush", 2) <= max(returned("(*Writer).GetTermSize", 1) - 1, 0)
@@ -1108,9 +1123,7 @@ package mpb
 
 //@ chan Progress.operateState invariant v != nil
 //@ chan Progress.interceptIO invariant v != nil
-// serve reads both through local copies (set to nil after an error)
-//@ chan serve.operateState assume v != nil
-//@ chan serve.interceptIO assume v != nil
+// (serve reads both through local copies that hold the field or nil: same role)
 
 // the drain goroutine started after a render error keeps taking refresh requests until the
 // refresh listener has gone (p.done), so the listener is never left parked on a request
@@ -1277,10 +1290,10 @@ package mpb
 //@   modifies recvd("<-chan struct{}")
 
 //@ func (*Bar).Wait
-//@   props    C14 C02
+//@   props    C14 C02 C11
 //@   requires b != nil
 //@   modifies recvd(b.bsOk)
-//@   ensures  recvd(b.bsOk) == old(recvd(b.bsOk)) + 1
+//@   ensures  settled@C11,C14: recvd(b.bsOk) == old(recvd(b.bsOk)) + 1
 
 // public API of Progress after the container is done (C02): Add returns (nil, ErrDone), Write
 // returns (0, ErrDone); C13: a write that is accepted is applied once, to the writer the
@@ -1309,6 +1322,8 @@ package mpb
 //@   requires p != nil
 //@   ensures  atomic@C10: sent(p.operateState) <= old(sent(p.operateState)) + 1
 //@   ensures  nilbar@C02: b == nil ==> sent(p.operateState) == old(sent(p.operateState))
+//@   ensures  accepted@C06: b != nil ==> sent(p.operateState) == old(sent(p.operateState)) + 1 || recvd(p.done) > old(recvd(p.done)) // any bar the caller holds, finished or not, as long as the container lives
+//@   ensures  payload@C06: sent(p.operateState) == old(sent(p.operateState)) + 1 ==> fnof(lastSent(p.operateState)) == fn("(*Progress).UpdateBarPriority$1") && bound(lastSent(p.operateState), "b") == in(b) && bound(lastSent(p.operateState), "priority") == in(priority) && bound(lastSent(p.operateState), "lazy") == in(lazy)
 
 //@ func (*Progress).UpdateBarPriority$1
 //@   props    C06 C02
